@@ -5,6 +5,7 @@ import (
 	"encoding/json"
 	"fmt"
 	"math/rand"
+	"sort"
 	"strings"
 
 	"github.com/BurntSushi/toml"
@@ -78,7 +79,12 @@ func collectJSON(v any, set func(any), out *[]strRef) {
 			collectJSON(x[i], func(n any) { x[i] = n }, out)
 		}
 	case map[string]any:
+		keys := make([]string, 0, len(x))
 		for k := range x {
+			keys = append(keys, k)
+		}
+		sort.Strings(keys) // the case list must be a function of the seed: no map iteration order
+		for _, k := range keys {
 			k := k
 			collectJSON(x[k], func(n any) { x[k] = n }, out)
 			// the key itself is a string leaf too
@@ -101,74 +107,156 @@ func collectYAML(n *yaml.Node, out *[]strRef) {
 	}
 }
 
-func valueEdit(r *rand.Rand, b []byte) ([]byte, string, bool) {
+// structDoc is a parsed JSON / TOML / YAML document with its string leaves (values and map keys) in a fixed order.
+type structDoc struct {
+	kind   string
+	refs   []strRef
+	render func() ([]byte, error)
+}
+
+func parseStructured(b []byte) *structDoc {
 	trimmed := bytes.TrimSpace(b)
 	if len(trimmed) == 0 || len(b) > 1<<20 {
-		return nil, "", false
+		return nil
 	}
-	var refs []strRef
-	var render func() ([]byte, error)
-	kind := ""
+	d := &structDoc{}
 	if trimmed[0] == '{' || trimmed[0] == '[' {
 		var v any
 		if json.Unmarshal(b, &v) == nil {
 			root := v
-			collectJSON(root, func(n any) { root = n }, &refs)
-			render = func() ([]byte, error) { return json.MarshalIndent(root, "", " ") }
-			kind = "json"
+			collectJSON(root, func(n any) { root = n }, &d.refs)
+			d.render = func() ([]byte, error) { return json.MarshalIndent(root, "", " ") }
+			d.kind = "json"
 		}
 	}
-	if kind == "" && len(b) <= 8<<10 {
+	if d.kind == "" && len(b) <= 8<<10 {
 		// size caps: the TOML decoder is quadratic on some inputs (see the known findings); the mutator runs without a watchdog
 		var m map[string]any
 		if _, err := toml.Decode(string(b), &m); err == nil && len(m) > 0 {
 			var root any = m
-			collectJSON(root, func(n any) {}, &refs)
-			render = func() ([]byte, error) {
+			collectJSON(root, func(n any) {}, &d.refs)
+			d.render = func() ([]byte, error) {
 				var buf bytes.Buffer
 				err := toml.NewEncoder(&buf).Encode(m)
 				return buf.Bytes(), err
 			}
-			kind = "toml"
+			d.kind = "toml"
 		}
 	}
-	if kind == "" && len(b) <= 256<<10 {
+	if d.kind == "" && len(b) <= 256<<10 {
 		var n yaml.Node
 		if yaml.Unmarshal(b, &n) == nil && len(n.Content) > 0 && n.Content[0].Kind != yaml.ScalarNode {
-			collectYAML(&n, &refs)
-			render = func() ([]byte, error) { return yaml.Marshal(&n) }
-			kind = "yaml"
+			collectYAML(&n, &d.refs)
+			d.render = func() ([]byte, error) { return yaml.Marshal(&n) }
+			d.kind = "yaml"
 		}
 	}
-	if kind == "" || len(refs) == 0 {
+	if d.kind == "" || len(d.refs) == 0 {
+		return nil
+	}
+	return d
+}
+
+// apply sets leaf i to nv and serialises the document (the document is spent afterwards).
+func (d *structDoc) apply(i int, nv string) (out []byte, err error) {
+	defer func() {
+		if recover() != nil {
+			err = fmt.Errorf("encoder panic")
+		}
+	}()
+	d.refs[i].set(nv)
+	return d.render()
+}
+
+func clip40(s string) string {
+	if len(s) > 40 {
+		return s[:40]
+	}
+	return s
+}
+
+func valueEdit(r *rand.Rand, b []byte) ([]byte, string, bool) {
+	d := parseStructured(b)
+	if d == nil {
 		return nil, "", false
 	}
 	// prefer leaves that contain a separator (three tries)
-	ref := refs[r.Intn(len(refs))]
-	for t := 0; t < 3 && !strings.ContainsAny(ref.get(), valueSeps); t++ {
-		ref = refs[r.Intn(len(refs))]
+	i := r.Intn(len(d.refs))
+	for t := 0; t < 3 && !strings.ContainsAny(d.refs[i].get(), valueSeps); t++ {
+		i = r.Intn(len(d.refs))
 	}
-	old := ref.get()
+	old := d.refs[i].get()
 	nv := sepEdit(r, old)
-	var out []byte
-	var err error
-	func() {
-		defer func() {
-			if recover() != nil {
-				err = fmt.Errorf("encoder panic")
-			}
-		}()
-		ref.set(nv)
-		out, err = render()
-	}()
+	out, err := d.apply(i, nv)
 	if err != nil {
 		return nil, "", false
 	}
-	if len(old) > 40 {
-		old = old[:40]
+	return out, fmt.Sprintf("value-edit(%s %q -> %q)", d.kind, clip40(old), clip40(nv)), true
+}
+
+var onlySeps = []string{"@/", "/", "@", ":", "#", "=", "//", "@@", ":#", "/@", " ", "%", ",", ";"}
+
+// sepEditsAll enumerates the separator-aware rewrites of s in a fixed order, most telling first: empty, only
+// separators, then for every separator occurrence (the first 8) the deletions around it, its duplication, the emptied
+// following segment, its replacement by other separators, and swaps of two different separators.
+func sepEditsAll(s string) []string {
+	seen := map[string]bool{s: true}
+	var out []string
+	add := func(v string) {
+		if !seen[v] {
+			seen[v] = true
+			out = append(out, v)
+		}
 	}
-	if len(nv) > 40 {
-		nv = nv[:40]
+	add("")
+	for _, v := range onlySeps[:4] {
+		add(v)
 	}
-	return out, fmt.Sprintf("value-edit(%s %q -> %q)", kind, old, nv), true
+	var idx []int
+	for i := 0; i < len(s) && len(idx) < 8; i++ {
+		if strings.IndexByte(valueSeps, s[i]) >= 0 {
+			idx = append(idx, i)
+		}
+	}
+	for _, i := range idx {
+		add(s[i+1:])
+		add(s[:i])
+		add(s[i:])
+		add(s[:i+1])
+		add(s[:i] + string(s[i]) + s[i:])
+	}
+	for _, v := range onlySeps[4:] {
+		add(v)
+	}
+	for n, i := range idx {
+		j := len(s)
+		if n+1 < len(idx) {
+			j = idx[n+1]
+		}
+		add(s[:i+1] + s[j:])
+	}
+	for _, i := range idx {
+		for _, j := range idx {
+			if i < j && s[i] != s[j] {
+				b := []byte(s)
+				b[i], b[j] = b[j], b[i]
+				add(string(b))
+			}
+		}
+	}
+	for _, i := range idx {
+		for _, c := range []byte("@/:# ") {
+			b := []byte(s)
+			b[i] = c
+			add(string(b))
+		}
+	}
+	if len(idx) == 0 && len(s) > 0 {
+		for _, c := range []byte(valueSeps) {
+			add(s + string(c))
+			add(string(c) + s)
+			add(s + string(c) + s)
+		}
+	}
+	return out
 }
